@@ -105,7 +105,7 @@ def wxnormRunYears (toks : Toks) : Option String := do
   let (k, r) ← popNat r
   let files ← popFilesD k r
   let look : Nat → Option (List (Nat × Day Float)) := fun y => (files.find? (·.1 == y)).map (·.2)
-  match runPerYearN nv corr look anjahr beginn itag ndays with
+  match runPerYearL nv corr look anjahr beginn itag ndays with
   | none => some "err"
   | some ds => some (fmtDaysD mask ds)
 
